@@ -113,9 +113,9 @@ Definition sp_step (sp : spec) (o : op) (rs : res) : spec * list clause :=
   | Publish _ t v, ROk =>
     (sp_set_rx sp (map (fun x => if s_live x && mem t (s_subs x) then srx_offer x (t, v) else x) (sp_rx sp)), [])
   | CloneS s s', ROk =>
-    match find_stx s (sp_tx sp) with
-    | Some x => (sp_set_tx sp (sp_tx sp ++ [{| x_id := s'; x_live := true; x_closed := x_closed x |}]), [])
-    | None => (sp, [])
+    match find_stx s (sp_tx sp), find_stx s' (sp_tx sp) with
+    | Some x, None => (sp_set_tx sp (sp_tx sp ++ [{| x_id := s'; x_live := true; x_closed := x_closed x |}]), [])
+    | _, _ => (sp, [])
     end
   | CloseS s, ROk =>
     (after_sender_gone (sp_set_tx sp (upd_stx s (fun x => {| x_id := x_id x; x_live := x_live x; x_closed := true |}) (sp_tx sp))), [])
@@ -128,9 +128,9 @@ Definition sp_step (sp : spec) (o : op) (rs : res) : spec * list clause :=
   | Unsubscribe r t, ROk =>
     (sp_set_rx sp (upd_srx r (fun x => srx_set_subs x (filter (fun u => negb (N.eqb u t)) (s_subs x))) (sp_rx sp)), [])
   | CloneR r r', ROk =>
-    match find_srx r (sp_rx sp) with
-    | Some x => (sp_set_rx sp (sp_rx sp ++ [srx_new r' (s_subs x) (s_cap x)]), [])
-    | None => (sp, [])
+    match find_srx r (sp_rx sp), find_srx r' (sp_rx sp) with
+    | Some x, None => (sp_set_rx sp (sp_rx sp ++ [srx_new r' (s_subs x) (s_cap x)]), [])
+    | _, _ => (sp, [])
     end
   | CloseR r, ROk => (sp_set_rx sp (upd_srx r (fun x => srx_close x (s_live x) true) (sp_rx sp)), [])
   | DropR r, ROk => (sp_set_rx sp (upd_srx r (fun x => srx_close x false (s_closed x)) (sp_rx sp)), [])
